@@ -25,6 +25,7 @@
 From Coq Require Import Strings.String Strings.Ascii.
 From CG3 Require Import Lib.PyZ Lib.Val Lib.PySlice Model.View.
 From CG3 Require Model.IndelMap.
+From CG3 Require Lib.Rose Model.Tree Model.TreeJson.
 
 (** * strings *)
 
@@ -50,6 +51,11 @@ Fixpoint is_prefix (k t : list Z) : bool :=
 Fixpoint is_infix (k t : list Z) : bool :=
   is_prefix k t || match t with [] => false | _ :: t' => is_infix k t' end.
 
+Definition is_suffix (k t : list Z) : bool := is_prefix (rev k) (rev t).
+
+(** [str.lower()] on ASCII *)
+Definition lower (s : list Z) : list Z := map (fun c => if (65 <=? c) && (c <=? 90) then c + 32 else c) s.
+
 (** * JSON values *)
 
 Inductive json : Type :=
@@ -58,7 +64,8 @@ Inductive json : Type :=
 | JInt (z : Z)
 | JStr (s : list Z)
 | JArr (l : list json)
-| JObj (o : list (list Z * json)).
+| JObj (o : list (list Z * json))
+| JFloat (repr : list Z).        (* a float, carried as its shortest repr (json.dumps writes exactly that) *)
 
 Definition dict := list (list Z * json).
 
@@ -90,6 +97,25 @@ Definition k_map_init := zs "map_init".
 Definition k_seq_init := zs "seq_init".
 Definition k_seqs := zs "seqs".
 Definition k_alphabet := zs "alphabet".
+Definition k_newick := zs "newick".
+Definition k_edge_attributes := zs "edge_attributes".
+Definition k_length := zs "length".
+Definition k_init_table := zs "init_table".
+Definition k_data := zs "data".
+Definition k_order := zs "order".
+Definition k_columns := zs "columns".
+Definition k_values := zs "values".
+Definition k_dtype := zs "dtype".
+Definition k_index_name := zs "index_name".
+Definition k_title := zs "title".
+Definition k_legend := zs "legend".
+Definition k_array := zs "array".
+Definition k_names := zs "names".
+Definition k_nc_construction := zs "not_completed_construction".
+Definition k_args := zs "args".
+Definition k_kwargs := zs "kwargs".
+Definition k_message := zs "message".
+Definition k_source := zs "source".
 
 Definition version_str := zs "2024.7.19a6".
 
@@ -116,6 +142,11 @@ Definition key_seq_module : list Z := zs "cogent3.core.sequence".
 Definition ty_aligned := zs "cogent3.core.alignment.Aligned".
 Definition ty_alignment := zs "cogent3.core.alignment.Alignment".
 Definition ty_indelmap := zs "cogent3.core.location.IndelMap".
+Definition ty_tree := zs "cogent3.core.tree.PhyloNode".
+Definition ty_table := zs "cogent3.util.table.Table".
+Definition ty_columns := zs "cogent3.util.table.Columns".
+Definition ty_dictarray := zs "cogent3.util.dict_array.DictArrayTemplate".
+Definition ty_notcompleted := zs "cogent3.app.composable.NotCompleted".
 
 Definition label_of (k : kind) : list Z :=
   match k with KDna => zs "dna" | KRna => zs "rna" | KOther => zs "text" end.
@@ -306,6 +337,266 @@ Definition alignment_of_dict (d : dict) : res (kind * dict * list aligned) :=
   bind (rows_of_dicts rows) (fun rs =>
   bind (info_of_json (jget k_info d)) (fun inf => Ok (k, inf, rs)))))).
 
+
+(** * trees (the model of C09: Model/Tree.v, Model/TreeJson.v) *)
+
+(** [d[k] = v] on an insertion-ordered dict *)
+Fixpoint dict_set (k : list Z) (v : json) (d : dict) : dict :=
+  match d with
+  | [] => [(k, v)]
+  | (k', v') :: d' => if zeqb k k' then (k, v) :: d' else (k', v') :: dict_set k v d'
+  end.
+
+Definition len_to_json (l : option Z) : json := match l with Some z => JInt z | None => JNull end.
+
+(** [attr = {}; for edge in get_edge_vector(include_root=True): attr[edge.name] = edge.params.copy()]
+    (the only parameter the tree model carries is "length") *)
+Definition attrs_to_dict (a : list (Rose.name * option Z)) : dict :=
+  fold_left (fun d kv => dict_set (fst kv) (JObj [(k_length, len_to_json (snd kv))]) d) a [].
+
+(** [PhyloNode.to_rich_dict]: newick with node names, names escaped / blanks quoted, no distances *)
+Definition tree_to_dict (t : Rose.tree) : json :=
+  JObj [ (k_newick, JStr (TreeJson.newick_node_qb true t));
+         (k_edge_attributes, JObj (attrs_to_dict (Tree.edge_attributes t)));
+         (k_type, JStr ty_tree);
+         (k_version, JStr version_str) ].
+
+(** [edge.params.update(edge_attr.get(edge.name, {}))] on every edge of the parsed tree *)
+Fixpoint apply_attr_dict (a : dict) (t : Rose.tree) : Rose.tree :=
+  match t with
+  | Rose.Node n l cs =>
+      let l' := match jget n a with
+                | Some (JObj ps) =>
+                    match jget k_length ps with
+                    | Some (JInt z) => Some z
+                    | Some _ => None
+                    | None => l
+                    end
+                | _ => l
+                end in
+      Rose.Node n l' (map (apply_attr_dict a) cs)
+  end.
+
+Definition lift_tree {A} (r : Tree.res A) : res A :=
+  match r with Tree.Ok a => Ok a | Tree.Err e => Err e end.
+
+(** [deserialise_tree]: [make_tree(treestring=newick)], then the edge attributes by NAME *)
+Definition tree_of_dict (d : dict) : res Rose.tree :=
+  bind (get_str (jget k_newick d)) (fun nw =>
+  bind (get_obj (jget k_edge_attributes d)) (fun ea =>
+  bind (lift_tree (Tree.make_tree false nw)) (fun t => Ok (apply_attr_dict ea t)))).
+
+(** * tables, dict arrays, NotCompleted *)
+
+(** a cell / scalar is a JSON scalar: [JInt], [JFloat], [JStr], [JBool], [JNull] *)
+Definition is_scalar (j : json) : bool :=
+  match j with JArr _ | JObj _ => false | _ => true end.
+
+(** one column: name, numpy dtype name as [Columns.__getstate__] writes it, values ([tolist()]) *)
+Record column := mkCol { c_name : list Z; c_dtype : list Z; c_values : list json }.
+
+(** a [Table]: the persistent attributes ([init_table], [index_name] among them) and the columns in order *)
+Record table := mkTab { t_index : option (list Z); t_attrs : dict; t_cols : list column }.
+
+Definition col_to_json (c : column) : json :=
+  JObj [ (k_values, JArr (c_values c)); (k_dtype, JStr (c_dtype c)) ].
+
+(** [Table.to_rich_dict] = [__getstate__] + type/version; [init_table] holds index_name first, then
+    the other persistent attributes *)
+Definition table_to_dict (t : table) : json :=
+  JObj [ (k_init_table, JObj ((k_index_name, jopt_str (t_index t)) :: t_attrs t));
+         (k_data, JObj [ (k_order, JArr (map (fun c => JStr (c_name c)) (t_cols t)));
+                         (k_columns, JObj (map (fun c => (c_name c, col_to_json c)) (t_cols t)));
+                         (k_type, JStr ty_columns);
+                         (k_version, JNull) ]);
+         (k_type, JStr ty_table);
+         (k_version, JNull) ].
+
+(** [str.strip()] leaves the name alone: no blank (space, tab, newline, CR, VT, FF) at either end *)
+Definition is_blank (c : Z) : bool := (c =? 32) || ((9 <=? c) && (c <=? 13)).
+Definition stripped (s : list Z) : bool :=
+  match s with
+  | [] => true
+  | c :: _ => negb (is_blank c) && negb (is_blank (last s c))
+  end.
+
+Fixpoint mem_str (k : list Z) (l : list (list Z)) : bool :=
+  match l with [] => false | x :: r => zeqb k x || mem_str k r end.
+
+(** python [==] on the scalars a column holds is modelled as structural equality of the JSON scalars
+    (the uniqueness test of [index_name]: [len(set(values)) == len(values)]) *)
+Definition json_scalar_eqb (a b : json) : bool :=
+  match a, b with
+  | JNull, JNull => true
+  | JBool x, JBool y => Bool.eqb x y
+  | JInt x, JInt y => x =? y
+  | JStr x, JStr y => zeqb x y
+  | JFloat x, JFloat y => zeqb x y
+  | _, _ => false
+  end.
+
+Fixpoint mem_scalar (x : json) (l : list json) : bool :=
+  match l with [] => false | y :: r => json_scalar_eqb x y || mem_scalar x r end.
+
+Fixpoint all_distinct (l : list json) : bool :=
+  match l with [] => true | x :: r => negb (mem_scalar x r) && all_distinct r end.
+
+(** the dtype a decoded column reports when it is written again.  [__getstate__] writes [dtype.name] with
+    "str" replaced by "U": a unicode column of 3 characters has [dtype.name = "str96"] (bits) and is written as
+    "U96"; [numpy.array(values, dtype="U96")] is a column of 96 CHARACTERS, whose name is "str3072".  Every other
+    dtype name ("int64", "float64", "bool", "object") reads back as itself. *)
+Definition is_digit (c : Z) : bool := (48 <=? c) && (c <=? 57).
+
+Fixpoint digits_val (acc : Z) (s : list Z) : option Z :=
+  match s with
+  | [] => Some acc
+  | c :: r => if is_digit c then digits_val (acc * 10 + (c - 48)) r else None
+  end.
+
+Fixpoint z_digits (fuel : nat) (z : Z) (acc : list Z) : list Z :=
+  match fuel with
+  | O => acc
+  | S f => let acc' := (48 + z mod 10) :: acc in if z / 10 =? 0 then acc' else z_digits f (z / 10) acc'
+  end.
+
+Definition redtype (dt : list Z) : list Z :=
+  match dt with
+  | 85 :: (_ :: _) as ds =>
+      match digits_val 0 ds with
+      | Some n => 85 :: z_digits 60 (32 * n) []
+      | None => dt
+      end
+  | _ => dt
+  end.
+
+(** [Columns.__setstate__]: for every name in "order": [new[c] = numpy.array(values, dtype)];
+    [__setitem__] strips the key, the first column fixes the number of rows, a column of another
+    length raises ValueError, an existing key is overwritten in place.  The numpy cast is the
+    identity on what [__getstate__] writes ([tolist()] of an array of that dtype); a column that is
+    not a list of scalars is outside the model ([E_Type]). *)
+Fixpoint cols_of_dict (order : list json) (cols : dict) (nrows : option Z) (seen : list (list Z)) : res (list column) :=
+  match order with
+  | [] => Ok []
+  | JStr c :: rest =>
+      bind (get_obj (jget c cols)) (fun cd =>
+      match jget k_values cd, jget k_dtype cd with
+      | Some (JArr vals), Some (JStr dt) =>
+          if negb (forallb is_scalar vals) then Err E_Type
+          else if negb (stripped c) || mem_str c seen then Err E_Other       (* renamed / overwritten: outside the model *)
+          else if match nrows with Some n => negb (n =? 0) && negb (zlen vals =? n) | None => false end then Err E_Value
+          else bind (cols_of_dict rest cols (match nrows with Some n => if n =? 0 then Some (zlen vals) else Some n | None => Some (zlen vals) end) (c :: seen))
+                    (fun r => Ok (mkCol c (redtype dt) vals :: r))
+      | None, _ | _, None => Err E_Key
+      | _, _ => Err E_Type
+      end)
+  | _ :: _ => Err E_Type
+  end.
+
+Fixpoint find_col (n : list Z) (cs : list column) : option column :=
+  match cs with [] => None | c :: r => if zeqb n (c_name c) then Some c else find_col n r end.
+
+(** the [index_name] setter: the column must exist and hold unique values *)
+Definition check_index (ix : option (list Z)) (cs : list column) : res unit :=
+  match ix with
+  | None => Ok tt
+  | Some n => match find_col n cs with
+              | None => Err E_Value
+              | Some c => if all_distinct (c_values c) then Ok tt else Err E_Value
+              end
+  end.
+
+(** [deserialise_tabular] for a Table with "init_table": [Table] on the unpacked attributes, [columns.__setstate__], [index_name = ...] *)
+Definition table_of_dict (d : dict) : res table :=
+  bind (get_obj (jget k_init_table d)) (fun it =>
+  match it with
+  | (k, ixj) :: attrs =>
+      if negb (zeqb k k_index_name) then Err E_Other               (* the model keeps index_name first *)
+      else
+      bind (get_opt_str (Some ixj)) (fun ix =>
+      bind (get_obj (jget k_data d)) (fun dd =>
+      match jget k_order dd with
+      | Some (JArr order) =>
+          bind (get_obj (jget k_columns dd)) (fun cols =>
+          bind (cols_of_dict order cols None []) (fun cs =>
+          bind (check_index ix cs) (fun _ => Ok (mkTab ix attrs cs))))
+      | Some _ => Err E_Type
+      | None => Err E_Key
+      end))
+  | [] => Err E_Key
+  end).
+
+(** a [DictArray]: the names of every dimension and the (nested) array *)
+Record darr := mkDarr { d_names : list (list json); d_array : json }.
+
+(** [DictArray.to_rich_dict]: the type is the provenance of the TEMPLATE *)
+Definition darr_to_dict (a : darr) : json :=
+  JObj [ (k_type, JStr ty_dictarray);
+         (k_array, d_array a);
+         (k_names, JArr (map JArr (d_names a)));
+         (k_version, JStr version_str) ].
+
+(** [numpy.shape(array)[dim]] for a rectangular nested list: the length at depth [dim] along the first branch *)
+Fixpoint shape_at (fuel : nat) (j : json) (dim : nat) : option Z :=
+  match fuel with
+  | O => None
+  | S f =>
+      match j with
+      | JArr l => match dim with
+                  | O => Some (zlen l)
+                  | S d' => match l with x :: _ => shape_at f x d' | [] => None end
+                  end
+      | _ => None
+      end
+  end.
+
+Fixpoint check_shape (names : list (list json)) (arr : json) (dim : nat) : bool :=
+  match names with
+  | [] => true
+  | cats :: rest =>
+      match shape_at (S dim) arr dim with
+      | Some n => (zlen cats =? n) && check_shape rest arr (S dim)
+      | None => false
+      end
+  end.
+
+Fixpoint names_of_json (l : list json) : res (list (list json)) :=
+  match l with
+  | [] => Ok []
+  | JArr cats :: r => bind (names_of_json r) (fun rr => Ok (cats :: rr))
+  | _ :: _ => Err E_Type
+  end.
+
+(** [deserialise_tabular] for a DictArray: [DictArrayTemplate] on the unpacked names, then [wrap(array)]; [wrap] asserts that every
+    dimension has as many categories as the array is long in that dimension *)
+Definition darr_of_dict (d : dict) : res darr :=
+  match jget k_names d, jget k_array d with
+  | Some (JArr ns), Some arr =>
+      bind (names_of_json ns) (fun names =>
+      if check_shape names arr 0 then Ok (mkDarr names arr) else Err E_Other)
+  | None, _ | _, None => Err E_Key
+  | _, _ => Err E_Type
+  end.
+
+(** [NotCompleted(type, origin, message, source)]: [_persistent] = the constructor's args and kwargs *)
+Record notcompleted := mkNC { nc_args : list json; nc_kwargs : dict }.
+
+Definition nc_to_dict (n : notcompleted) : json :=
+  JObj [ (k_type, JStr ty_notcompleted);
+         (k_nc_construction, JObj [ (k_args, JArr (nc_args n)); (k_kwargs, JObj (nc_kwargs n)) ]);
+         (k_version, JStr version_str) ].
+
+(** [deserialise_not_completed]: [klass] on the unpacked args and kwargs; the constructor takes exactly three
+    positional arguments and the keyword "source" *)
+Definition nc_of_dict (d : dict) : res notcompleted :=
+  bind (get_obj (jget k_nc_construction d)) (fun init =>
+  match jget k_args init, jget k_kwargs init with
+  | Some (JArr args), Some (JObj kw) =>
+      if negb (zlen args =? 3) then Err E_Type
+      else if forallb (fun kv => zeqb (fst kv) k_source) kw then Ok (mkNC args kw) else Err E_Type
+  | None, _ | _, None => Err E_Key
+  | _, _ => Err E_Type
+  end).
+
 (** * the registry *)
 
 (** the deserialiser functions, by name *)
@@ -429,7 +720,11 @@ Inductive obj :=
 | OSeq (st : style) (s : seqobj)
 | OImap (m : IndelMap.imap)
 | OAligned (a : aligned)
-| OAlignment (k : kind) (info : dict) (rows : list aligned).
+| OAlignment (k : kind) (info : dict) (rows : list aligned)
+| OTree (t : Rose.tree)
+| OTable (t : table)
+| ODarr (a : darr)
+| ONotCompleted (n : notcompleted).
 
 Definition to_dict (x : obj) : json :=
   match x with
@@ -438,7 +733,14 @@ Definition to_dict (x : obj) : json :=
   | OImap m => imap_to_dict m
   | OAligned a => aligned_to_dict a
   | OAlignment k inf rows => alignment_to_dict k inf rows
+  | OTree t => tree_to_dict t
+  | OTable t => table_to_dict t
+  | ODarr a => darr_to_dict a
+  | ONotCompleted n => nc_to_dict n
   end.
+
+Definition s_Table := zs "Table".
+Definition s_dictarray := zs "dictarray".
 
 (** run the decoder the registry selects *)
 Definition run_decoder (f : decoder) (d : dict) : res obj :=
@@ -449,6 +751,17 @@ Definition run_decoder (f : decoder) (d : dict) : res obj :=
   | DIndelMap => bind (imap_of_dict d) (fun m => Ok (OImap m))
   | DAligned => bind (aligned_of_dict d) (fun a => Ok (OAligned a))
   | DSeqCollections => bind (alignment_of_dict d) (fun '(k, inf, rows) => Ok (OAlignment k inf rows))
+  | DTree => bind (tree_of_dict d) (fun t => Ok (OTree t))
+  | DNotCompleted => bind (nc_of_dict d) (fun n => Ok (ONotCompleted n))
+  | DTabular =>
+      (* deserialise_tabular branches on the type string *)
+      match jget k_type d with
+      | Some (JStr ty) =>
+          if is_suffix s_Table ty then bind (table_of_dict d) (fun t => Ok (OTable t))
+          else if is_infix s_dictarray (lower ty) then bind (darr_of_dict d) (fun a => Ok (ODarr a))
+          else Err E_Other                (* DistanceMatrix: outside the model *)
+      | _ => Err E_Key
+      end
   | _ => Err E_Other                      (* decoder outside the model *)
   end.
 
